@@ -3650,6 +3650,25 @@ impl AbiTraitDefinition {
     }
 }
 
+/// Verification hooks: read access to the private memory-layout annotations of schema nodes.
+#[cfg(feature = "avl_savefile_verif")]
+#[doc(hidden)]
+pub mod verif_schema_access {
+    use super::{Field, SchemaEnum, SchemaStruct};
+    /// Field::offset
+    pub fn field_offset(f: &Field) -> Option<usize> {
+        f.offset
+    }
+    /// (SchemaStruct::size, SchemaStruct::alignment)
+    pub fn struct_layout(s: &SchemaStruct) -> (Option<usize>, Option<usize>) {
+        (s.size, s.alignment)
+    }
+    /// (SchemaEnum::has_explicit_repr, SchemaEnum::size, SchemaEnum::alignment)
+    pub fn enum_layout(e: &SchemaEnum) -> (bool, Option<usize>, Option<usize>) {
+        (e.has_explicit_repr, e.size, e.alignment)
+    }
+}
+
 /// The schema represents the save file format
 /// of your data structure.
 ///
